@@ -26,6 +26,13 @@ claim("C07", "static analysis: def-use + cut-set check that every file-creating 
       "Decides: every os.Create/OpenFile(write)/WriteFile/Mkdir(All)/Rename reachable from the listener handlers or the service dispatcher takes a path that is the tested path (or tested directory + separator-free component, or the base directory) of a strings.HasPrefix(filepath.Clean(p), base+sep) test (or with the p==base alternative) whose failing edge cannot reach the call; paths read from struct fields are vouched at every store; writes/closes of a download handle are control-dependent on FileID == parameter. Not decided: symlink races, content equality under write errors, chunk interleavings.",
       TRUST, "DESIGN.md §3 R7, §4 C07")
 
+claim("C02", "static analysis: type-switch exhaustiveness over all Job.Data literals, sibling case/width agreement, byte-order selectors, SSA def-use proof that only XCryptBytesAES256(body, key, iv) output is appended to the package, request-id provenance, terminator edge rule",
+      "Decides: every element type placed in a task's argument list is an encoder case; GetQueuedJobs and BuildPayloadMessage agree on case set and widths; every byte-order selector on the teamserver->agent path is LittleEndian and the parser defaults to big-endian; every append to the returned package is a 4-byte header field or XCryptBytesAES256(body, AesKey, AesIv) on the function's own parameters, XCryptBytesAES256 keys a fresh AES-CTR stream per call, every caller passes key and IV of one agent; TaskPrepare stores only rand or the hex TaskID into RequestID; terminators appended exactly when missing. Not decided: argument order vs the Demon's C handlers, value fidelity (UTF-16 transcoding, integer conversions), AES itself.",
+      TRUST, "DESIGN.md §3 R8, §4 C02")
+claim("C08", "static analysis: constant-argument rule on every ParseInt(NameID,16,N); SSA value-identity (same-object) rules for pivot layer key/id pairs and for the relay re-dispatch receiver, with dominance of its nil check",
+      "Decides: every parse of an agent's NameID is wide enough for all 32-bit ids; in PivotAddJob each layer is encrypted with the key/IV of the agent whose id is packed as that layer's destination; in the relay arm the agent returned by AgentInstance(inner header id) is nil-checked, supplies the decryption key and is the receiver of the re-entered TaskDispatch (so C05's gate applies to the child's tasks), over a parser built from ParseBytes() of the frame. Not decided: the nested encode/decode round trip as values for depth <= 5.",
+      TRUST, "DESIGN.md §3 R8, §4 C08")
+
 for i in range(1, 21):
     pid = "C%02d" % i
     if pid not in CLAIMS and pid not in NA:
